@@ -5,7 +5,8 @@ effect language.  A decorated function is described by the *names* of the decora
 says what the caller must observe after awaiting: which invocations of the decorated body happen (with which bound
 arguments), which result / exception comes out, how many `DeprecationWarning`s are emitted, by how much every
 `count_calls` counter moves.  It says nothing about printing.  Where the property text is silent the outcome is marked
-`unspec` and only the correspondence between model and implementation is checked.
+`unspec` and only the correspondence between model and implementation is checked.  A positional call through `require_kwargs` is
+marked `mayReject`: the layer may refuse it (C05 says when), but a call it lets through must be transparent.
 
 Shared with the model (environment, not decorator code): Python's argument binding `bind`, body scripts, `World`.
 -/
@@ -59,6 +60,10 @@ structure SOut where
   incrs : List Int                -- movement of every count_calls counter, outermost first
   unspec : Bool                   -- the property text does not determine this call
   w : World
+  /-- a positional call reached a `require_kwargs` layer: that layer may refuse it with `PedanticCallWithArgsException` before anything
+      underneath runs (which calls it refuses is C05's subject); if it lets the call through, everything above describes the call —
+      the decorated callable receives every argument of the caller, positional ones included -/
+  mayReject : Bool := false
 deriving Repr
 
 def outcTag : Outc → RTag
@@ -68,8 +73,8 @@ def outcTag : Outc → RTag
 /-- the undecorated function: bind the arguments, run the body once -/
 def specBody (b : Body) (a : Args) (w : World) : SOut :=
   match bind b.sig a with
-  | none => ⟨.exc (.lib "TypeError"), [], 0, [], false, w⟩
-  | some bd => ⟨outcTag (b.script w.inv), [.body .wrapped w.inv bd], 0, [], false, { w with inv := w.inv + 1 }⟩
+  | none => ⟨.exc (.lib "TypeError"), [], 0, [], false, w, false⟩
+  | some bd => ⟨outcTag (b.script w.inv), [.body .wrapped w.inv bd], 0, [], false, { w with inv := w.inv + 1 }, false⟩
 
 /-- the last rule for `k` decides (the rules form a dict keyed by `from_`) -/
 def ruleFor (k : Nat) : List (Nat × Nat) → Option Nat
@@ -96,7 +101,10 @@ def spec : SFn → Nat → Args → World → SOut
     | .trace | .timer | .traceIfReturns | .overrides => spec i n a w
     | .requireKwargs =>
       let r := spec i n a w
-      if a.pos.length > n then { r with unspec := true } else r          -- only keyword calls are in the property
+      -- a staticmethod / classmethod object (the decorator written above `@staticmethod`) is not a function: outside the property
+      if p.guard.notFunction then { r with unspec := true }
+      -- a positional call is either refused by this layer or goes through unchanged
+      else if a.pos.length > n then { r with mayReject := true } else r
     | .countCalls =>
       let r := spec i n a w
       { r with incrs := 1 :: r.incrs }
@@ -104,8 +112,8 @@ def spec : SFn → Nat → Args → World → SOut
       let r := spec i n a w
       { r with warns := r.warns + 1 }
     | .renameKwargs => spec i n { a with kw := specRename p.renames [] a.kw } w
-    | .mock => ⟨.obj p.param, [], 0, List.replicate i.nCounters 0, false, w⟩
-    | .unimplemented => ⟨.exc (.lib "NotImplementedException"), [], 0, List.replicate i.nCounters 0, false, w⟩
+    | .mock => ⟨.obj p.param, [], 0, List.replicate i.nCounters 0, false, w, false⟩
+    | .unimplemented => ⟨.exc (.lib "NotImplementedException"), [], 0, List.replicate i.nCounters 0, false, w, false⟩
     | .doesSame =>
       let r := spec i n a w
       if !i.isCoro && i.bodyIsCoro then { r with unspec := true }    -- a plain wrapper hands a coroutine object up: not two results that could agree
